@@ -30,7 +30,8 @@ type txPattern struct {
 	name     string
 	proto    string
 	peer     func() (mangos.Socket, error)
-	interval bool // pass --send-interval 10ms (needed by the duplex protocols to repeat)
+	interval bool   // pass --send-interval 10ms (needed by the duplex protocols to repeat)
+	ival     string // the interval value passed, "" = 10ms ("0" is an interval too: repeat without pause)
 }
 
 func subAll() (mangos.Socket, error) {
@@ -42,24 +43,28 @@ func subAll() (mangos.Socket, error) {
 }
 
 var txPatterns = []txPattern{
-	{"push", "--push", pull.NewSocket, false},
-	{"pub", "--pub", subAll, false},
-	{"push-i", "--push", pull.NewSocket, true},
-	{"pub-i", "--pub", subAll, true},
-	{"pair-i", "--pair", pair.NewSocket, true},
-	{"bus-i", "--bus", bus.NewSocket, true},
-	{"star-i", "--star", star.NewSocket, true},
-	{"req-i", "--req", rep.NewSocket, true},
-	{"surveyor-i", "--surveyor", respondent.NewSocket, true},
+	{"push", "--push", pull.NewSocket, false, ""},
+	{"pub", "--pub", subAll, false, ""},
+	{"push-i", "--push", pull.NewSocket, true, ""},
+	{"pub-i", "--pub", subAll, true, ""},
+	{"pair-i", "--pair", pair.NewSocket, true, ""},
+	{"bus-i", "--bus", bus.NewSocket, true, ""},
+	{"star-i", "--star", star.NewSocket, true, ""},
+	{"req-i", "--req", rep.NewSocket, true, ""},
+	{"surveyor-i", "--surveyor", respondent.NewSocket, true, ""},
+	{"req-i0", "--req", rep.NewSocket, true, "0"},
+	{"pair-i0", "--pair", pair.NewSocket, true, "0"},
+	{"surveyor-i0", "--surveyor", respondent.NewSocket, true, "0s"},
+	{"push-i0", "--push", pull.NewSocket, true, "0ms"},
 }
 
 // duplex protocols without --send-interval (see scenario tx-count-duplex-nointerval)
 var txDuplexNoInterval = []txPattern{
-	{"pair", "--pair", pair.NewSocket, false},
-	{"bus", "--bus", bus.NewSocket, false},
-	{"star", "--star", star.NewSocket, false},
-	{"req", "--req", rep.NewSocket, false},
-	{"surveyor", "--surveyor", respondent.NewSocket, false},
+	{"pair", "--pair", pair.NewSocket, false, ""},
+	{"bus", "--bus", bus.NewSocket, false, ""},
+	{"star", "--star", star.NewSocket, false, ""},
+	{"req", "--req", rep.NewSocket, false, ""},
+	{"surveyor", "--surveyor", respondent.NewSocket, false, ""},
 }
 
 type txCase struct {
@@ -208,7 +213,11 @@ func runTx(c txCase) (res txResult) {
 		}
 	}
 	if c.pat.interval {
-		args = append(args, "--send-interval", "10ms")
+		iv := "10ms"
+		if c.pat.ival != "" {
+			iv = c.pat.ival
+		}
+		args = append(args, "--send-interval", iv)
 	}
 	args = append(args, c.extra...)
 	res.args = args
@@ -232,6 +241,10 @@ func runTx(c txCase) (res txResult) {
 				res.got = append(res.got, m)
 				mu.Unlock()
 				armed = false
+				if c.pat.ival != "" && c.pat.name != "push-i0" {
+					// with an interval of zero macat waits for the answer before it sends again
+					_ = pe.sock.Send([]byte("answer"))
+				}
 				continue
 			}
 			if err != mangos.ErrRecvTimeout {
@@ -401,7 +414,10 @@ func scenTx(st *ekit.Stats, tier string) {
 		{0x7f, 0x80, 0xff}, []byte("-x"), []byte("--pull"), []byte("a=b"),
 		dataFill(255), dataFill(256), dataFill(257), dataFill(65535), dataFill(65536), dataFill(65537)}
 	for _, pat := range txPatterns {
-		for _, d := range small {
+		for di, d := range small {
+			if pat.ival != "" && di > 2 {
+				continue // the zero-interval variants: three bodies are enough
+			}
 			if tier != "thorough" && len(d) > 257 && pat.name != "push" && pat.name != "pair-i" && pat.name != "req-i" {
 				continue
 			}
